@@ -38,9 +38,12 @@ def build_world(w):
     p = w.spawn(PID, comm=b"target", ppid=PARENT, start=10)
     p.threads = {PID: Thread(b"target", 3, 4), PID + 1: Thread(b"w1", 1, 1), PID + 2: Thread(b"w2", 2, 2)}
     p.fds = {0: Fd("/dev/null", kind="dev"), 3: Fd("/tmp/data.txt", pos=5, flags=0o100002),
-             4: Fd("socket:[123]", kind="socket"), 5: Fd("pipe:[9]", kind="pipe")}
+             4: Fd("socket:[123]", kind="socket"), 5: Fd("pipe:[9]", kind="pipe"),
+             6: Fd("/tmp/unlinked.log (deleted)", pos=0, flags=0o100000)}
     p.maps = [Mapping("00400000-00401000", "r-xp", "/bin/target", Rss=4, Pss=4, Size=4, Private_Clean=4),
-              Mapping("7f0000000000-7f0000001000", "rw-p", "", Rss=8, Pss=8, Size=8, Private_Dirty=8, Anonymous=8)]
+              Mapping("7f0000000000-7f0000001000", "rw-p", "", Rss=8, Pss=8, Size=8, Private_Dirty=8, Anonymous=8),
+              # an unlinked file still mapped: psutil stats the name to tell a stale suffix from a real one
+              Mapping("7f0000002000-7f0000003000", "r--s", "/tmp/journal (deleted)", Rss=4, Pss=4, Size=4, Shared_Clean=4)]
     p.cmdline = b"/bin/target\0--flag\0"
     p.environ = b"HOME=/root\0A=1\0"
     p.exe, p.cwd = "/bin/target", "/"
